@@ -5,8 +5,11 @@ import Nv.Proofs.C04Wide
 C04 — property theorems for the LRU caches (`cache.LRUCache` = `Kind.sized`, `cache/tiny.LRUCache` =
 `Kind.tiny`, wide variants = arrays of them). Model: `Nv.Model.C04` (implementation-shaped, stored
 counters), reference: `Nv.Spec.C04` (ideal LRU, recomputed sizes).
-Every theorem quantifies over all operation sequences, all keys/values, all item sizes ≥ 0 and
-capacities ≥ 0 (`Op.sizeOk`), both kinds, and every configuration `c` with `Proved kd c`.
+Every theorem quantifies over all operation sequences, all keys/values, all item sizes and capacities in
+`[0, 2^62)` (`Op.sizeOk`; RESTRICTION of the property's quantifier, which has no upper bound: beyond it the `int64`
+counter wraps and the property is false of the code — `witness_size_counter_overflow`), both kinds, and every
+configuration `c` with `Proved kd c`. Keys are values with decidable reflexive equality (NaN-like keys, for which
+Go's `==` is not reflexive, are outside, as for every Go map).
 -/
 namespace Nv.C04
 
@@ -15,7 +18,7 @@ namespace Nv.C04
 /-- Every result of every operation (values, booleans, the removed list of `SetAndGetRemoved`,
 `Keys`/`Items` order, `Stats` = length/size/capacity/evictions) equals the ideal LRU's; in particular
 no operation panics. -/
-theorem lru_refines_ideal (kd : Kind) (c : Cfg) (hc : Proved kd c) (cap : Int) (hcap : 0 ≤ cap)
+theorem lru_refines_ideal (kd : Kind) (c : Cfg) (hc : Proved kd c) (cap : Int) (hcap : 0 ≤ cap) (hcap2 : cap < 2 ^ 62)
     (ops : List Op) (hok : ∀ o ∈ ops, o.sizeOk = true) :
     outs (step c kd) (Lru.new cap) ops = outs (specStep kd) (Ideal.new cap) ops :=
   (sim_outs (step c kd) (specStep kd) (fun s t => Inv kd s ∧ abs s = t) (fun o => o.sizeOk = true)
@@ -23,11 +26,11 @@ theorem lru_refines_ideal (kd : Kind) (c : Cfg) (hc : Proved kd c) (cap : Int) (
       obtain ⟨hi, rfl⟩ := hr
       have := step_sim hc s o hi ho
       exact ⟨⟨this.1, this.2.1⟩, this.2.2⟩)
-    ops _ _ ⟨inv_new kd cap hcap, rfl⟩ hok).1
+    ops _ _ ⟨inv_new kd cap hcap hcap2, rfl⟩ hok).1
 
 /-- …and the states stay related: the recency list, capacity and eviction counter are the ideal's, and the
 invariant (below) holds after every sequence. -/
-theorem lru_state_is_ideal (kd : Kind) (c : Cfg) (hc : Proved kd c) (cap : Int) (hcap : 0 ≤ cap)
+theorem lru_state_is_ideal (kd : Kind) (c : Cfg) (hc : Proved kd c) (cap : Int) (hcap : 0 ≤ cap) (hcap2 : cap < 2 ^ 62)
     (ops : List Op) (hok : ∀ o ∈ ops, o.sizeOk = true) :
     Inv kd (final (step c kd) (Lru.new cap) ops) ∧
       abs (final (step c kd) (Lru.new cap) ops) = final (specStep kd) (Ideal.new cap) ops :=
@@ -36,7 +39,7 @@ theorem lru_state_is_ideal (kd : Kind) (c : Cfg) (hc : Proved kd c) (cap : Int) 
       obtain ⟨hi, rfl⟩ := hr
       have := step_sim hc s o hi ho
       exact ⟨⟨this.1, this.2.1⟩, this.2.2⟩)
-    ops _ _ ⟨inv_new kd cap hcap, rfl⟩ hok).2
+    ops _ _ ⟨inv_new kd cap hcap hcap2, rfl⟩ hok).2
 
 example : Proved .sized ⟨.gt, true, false, true, true⟩ ∧ Proved .tiny ⟨.gt, true, false, true, false⟩ ∧
     Proved .tiny ⟨.gt, true, false, true, true⟩ := by decide
@@ -49,35 +52,35 @@ example : outs (step ⟨.gt, true, false, true, true⟩ .sized) (Lru.new 5)
 /-! ### invariants after every operation sequence -/
 
 /-- the summed item size never exceeds the capacity after an operation returns -/
-theorem lru_cap_bound (kd : Kind) (c : Cfg) (hc : Proved kd c) (cap : Int) (hcap : 0 ≤ cap)
+theorem lru_cap_bound (kd : Kind) (c : Cfg) (hc : Proved kd c) (cap : Int) (hcap : 0 ≤ cap) (hcap2 : cap < 2 ^ 62)
     (ops : List Op) (hok : ∀ o ∈ ops, o.sizeOk = true) :
     let s := final (step c kd) (Lru.new cap) ops
     s.size ≤ s.capacity ∧ total s.list ≤ s.capacity := by
-  have h := (lru_state_is_ideal kd c hc cap hcap ops hok).1
+  have h := (lru_state_is_ideal kd c hc cap hcap hcap2 ops hok).1
   exact ⟨by rw [h.size_eq]; exact h.fits, h.fits⟩
 
 /-- the stored counter is the sum of the entries' sizes; for tiny it is the number of entries -/
-theorem lru_size_accounting (kd : Kind) (c : Cfg) (hc : Proved kd c) (cap : Int) (hcap : 0 ≤ cap)
+theorem lru_size_accounting (kd : Kind) (c : Cfg) (hc : Proved kd c) (cap : Int) (hcap : 0 ≤ cap) (hcap2 : cap < 2 ^ 62)
     (ops : List Op) (hok : ∀ o ∈ ops, o.sizeOk = true) :
     let s := final (step c kd) (Lru.new cap) ops
     s.size = total s.list ∧ (kd = .tiny → s.size = s.list.length) := by
-  have h := (lru_state_is_ideal kd c hc cap hcap ops hok).1
+  have h := (lru_state_is_ideal kd c hc cap hcap hcap2 ops hok).1
   exact ⟨h.size_eq, fun hk => by rw [h.size_eq]; exact total_unit _ (h.unit hk)⟩
 
 /-- no key is listed twice -/
-theorem lru_nodup (kd : Kind) (c : Cfg) (hc : Proved kd c) (cap : Int) (hcap : 0 ≤ cap)
+theorem lru_nodup (kd : Kind) (c : Cfg) (hc : Proved kd c) (cap : Int) (hcap : 0 ≤ cap) (hcap2 : cap < 2 ^ 62)
     (ops : List Op) (hok : ∀ o ∈ ops, o.sizeOk = true) :
     ((final (step c kd) (Lru.new cap) ops).list.map (·.key)).Nodup :=
-  (lru_state_is_ideal kd c hc cap hcap ops hok).1.nodup
+  (lru_state_is_ideal kd c hc cap hcap hcap2 ops hok).1.nodup
 
 theorem specStep_no_panic (kd : Kind) (s : Ideal) (op : Op) : (specStep kd s op).2 ≠ .panic := by
   cases op <;> simp [specStep] <;> split <;> simp
 
 /-- inside the quantifier no call panics (the nil `Back()` is never dereferenced) -/
-theorem lru_no_panic (kd : Kind) (c : Cfg) (hc : Proved kd c) (cap : Int) (hcap : 0 ≤ cap)
+theorem lru_no_panic (kd : Kind) (c : Cfg) (hc : Proved kd c) (cap : Int) (hcap : 0 ≤ cap) (hcap2 : cap < 2 ^ 62)
     (ops : List Op) (hok : ∀ o ∈ ops, o.sizeOk = true) :
     Out.panic ∉ outs (step c kd) (Lru.new cap) ops := by
-  rw [lru_refines_ideal kd c hc cap hcap ops hok]
+  rw [lru_refines_ideal kd c hc cap hcap hcap2 ops hok]
   clear hok
   generalize Ideal.new cap = s
   induction ops generalizing s with
@@ -101,6 +104,10 @@ theorem lru_evicts_coldest_suffix (kd : Kind) (c : Cfg) (hc : Proved kd c) (s : 
   rw [hs]
   have := congrArg List.reverse (trimCold_split s.capacity s.list.reverse)
   simpa using this
+
+/-- non-vacuity of `Pre`: a state between an insertion and the capacity check (over capacity, counter exact) -/
+example : Pre .sized ⟨[⟨0, 1, 7⟩, ⟨1, 2, 2⟩], 9, 5, 0⟩ :=
+  ⟨by decide, by decide, by decide, (by intro h; cases h), by decide, by decide, by decide⟩
 
 /-- …and what is kept is exactly the longest prefix of the recency order that fits: entries are taken
 from the most recently used end while they cumulatively fit (`takeFit`). -/
@@ -149,9 +156,9 @@ theorem lru_setIfAbsent_refreshes (kd : Kind) (c : Cfg) (hc : Proved kd c) (s : 
 
 /-- `Set` puts the key at the front (when anything survives, the new entry is first) -/
 theorem lru_set_front (kd : Kind) (c : Cfg) (hc : Proved kd c) (s : Lru) (hi : Inv kd s) (k v : Nat) (sz : Int)
-    (hsz : 0 ≤ sz) :
+    (hsz : 0 ≤ sz) (hsz2 : sz < 2 ^ 62) :
     (step c kd s (.set k v sz)).1.list = takeFit s.capacity (⟨k, v, szOf kd sz⟩ :: removeKey k s.list) := by
-  have h := (step_sim hc s (.set k v sz) hi (by simpa [Op.sizeOk] using hsz)).2.1
+  have h := (step_sim hc s (.set k v sz) hi (by simpa [Op.sizeOk] using And.intro hsz hsz2)).2.1
   have h2 := ideal_insert_takeFit kd (abs s) k v sz hsz hi.nonneg
   have : (step c kd s (.set k v sz)).1.list = (abs (step c kd s (.set k v sz)).1).entries := rfl
   rw [this, h]; exact h2
@@ -166,8 +173,8 @@ theorem lru_peek_exist_pure (kd : Kind) (c : Cfg) (hc : Proved kd c) (s : Lru) (
 
 /-- an item larger than the whole capacity empties the cache, itself included -/
 theorem lru_oversize_item (c : Cfg) (hc : Proved .sized c) (s : Lru) (hi : Inv .sized s) (k v : Nat) (sz : Int)
-    (hsz : s.capacity < sz) : (step c .sized s (.set k v sz)).1.list = [] := by
-  rw [lru_set_front .sized c hc s hi k v sz (by have := hi.cap_nonneg; omega)]
+    (hsz : s.capacity < sz) (hsz2 : sz < 2 ^ 62) : (step c .sized s (.set k v sz)).1.list = [] := by
+  rw [lru_set_front .sized c hc s hi k v sz (by have := hi.cap_nonneg; omega) hsz2]
   have : ¬ sz ≤ s.capacity := by omega
   simp [takeFit, szOf, this]
 
@@ -193,7 +200,7 @@ theorem shardCap_nonneg (cap : Int) (n : Nat) (h : 0 ≤ cap) : 0 ≤ shardCap c
 /-- consequently every shard of a wide cache answers as the ideal LRU of capacity `capacity/shards + 1`
 on its sub-script, and keeps the invariant (bound, accounting, no duplicates) -/
 theorem wlru_shard_refines_ideal (kd : Kind) (c : Cfg) (hc : Proved kd c) (idx : Nat → Nat) (n : Nat)
-    (hidx : ∀ k, idx k < n) (cap : Int) (hcap : 0 ≤ cap) (ops : List Op)
+    (hidx : ∀ k, idx k < n) (cap : Int) (hcap : 0 ≤ cap) (hcap2 : cap + 1 < 2 ^ 62) (ops : List Op)
     (hkeyed : ∀ o ∈ ops, o.key?.isSome = true) (hok : ∀ o ∈ ops, o.sizeOk = true) :
     ∃ w os, wideRun c kd idx (Wide.new cap n) ops = some (w, os) ∧
       ∀ i, i < n →
@@ -204,9 +211,13 @@ theorem wlru_shard_refines_ideal (kd : Kind) (c : Cfg) (hc : Proved kd c) (idx :
   refine ⟨w, os, h1, fun i hi => ?_⟩
   have hsub : ∀ o ∈ shardOps idx i ops, o.sizeOk = true := fun o ho => hok o (List.mem_filter.1 ho).1
   have hcap' := shardCap_nonneg cap n hcap
+  have hcap'' : shardCap cap n < 2 ^ 62 := by
+    have : cap.tdiv n ≤ cap := by
+      rw [Int.tdiv_eq_ediv_of_nonneg hcap]; exact Int.ediv_le_self _ hcap
+    simp only [shardCap]; omega
   obtain ⟨ha, hb⟩ := h3 i hi
-  exact ⟨by rw [hb]; exact lru_refines_ideal kd c hc _ hcap' _ hsub,
-    _, ha, (lru_state_is_ideal kd c hc _ hcap' _ hsub).1⟩
+  exact ⟨by rw [hb]; exact lru_refines_ideal kd c hc _ hcap' hcap'' _ hsub,
+    _, ha, (lru_state_is_ideal kd c hc _ hcap' hcap'' _ hsub).1⟩
 
 example : (wideRun ⟨.gt, true, false, true, true⟩ .sized (· % 2) (Wide.new 4 2)
     [.set 0 1 1, .set 2 2 1, .set 4 3 1, .set 6 4 1, .set 1 5 3, .get 0]).map (·.2) =
@@ -245,7 +256,7 @@ theorem interleaving_mem {ps : List (List Op)} {m : List Op} (h : Interleaving p
 
 /-- for every schedule of concurrent callers the results are those of the ideal LRU on the same
 linearisation, and the capacity bound and size accounting hold at the end -/
-theorem lru_concurrent_callers (kd : Kind) (c : Cfg) (hc : Proved kd c) (cap : Int) (hcap : 0 ≤ cap)
+theorem lru_concurrent_callers (kd : Kind) (c : Cfg) (hc : Proved kd c) (cap : Int) (hcap : 0 ≤ cap) (hcap2 : cap < 2 ^ 62)
     (ps : List (List Op)) (hok : ∀ p ∈ ps, ∀ o ∈ p, o.sizeOk = true) (m : List Op) (hm : Interleaving ps m) :
     outs (step c kd) (Lru.new cap) m = outs (specStep kd) (Ideal.new cap) m ∧
       Inv kd (final (step c kd) (Lru.new cap) m) := by
@@ -253,9 +264,16 @@ theorem lru_concurrent_callers (kd : Kind) (c : Cfg) (hc : Proved kd c) (cap : I
     intro o ho
     obtain ⟨p, hp, hop⟩ := interleaving_mem hm o ho
     exact hok p hp o hop
-  exact ⟨lru_refines_ideal kd c hc cap hcap m hall, (lru_state_is_ideal kd c hc cap hcap m hall).1⟩
+  exact ⟨lru_refines_ideal kd c hc cap hcap hcap2 m hall, (lru_state_is_ideal kd c hc cap hcap hcap2 m hall).1⟩
 
 /-! ### what the hypotheses exclude, and what the unproved configurations do -/
+
+/-- INSIDE the property's quantifier (sizes ≥ 0, capacity ≥ 0) but outside `Op.sizeOk`: the `int64` counter wraps.
+`NewLRUCache(MaxInt64)`, an item of size MaxInt64, then an item of size 1: `size` = MinInt64, nothing is evicted,
+the summed size 2^63 exceeds the capacity. (Monitor key `C04:cache.LRUCache:size-counter-overflows`.) -/
+theorem witness_size_counter_overflow :
+    let s := final (step ⟨.gt, true, false, true, true⟩ .sized) (Lru.new (2 ^ 63 - 1)) [.set 0 1 (2 ^ 63 - 1), .set 1 2 1]
+    s.size = -(2 ^ 63) ∧ s.list.length = 2 ∧ s.evictions = 0 ∧ total s.list = 2 ^ 63 ∧ s.capacity = 2 ^ 63 - 1 := by decide
 
 /-- sizes < 0 are outside the property: the bound fails (Delete does not re-check the capacity) -/
 theorem witness_negative_size_breaks_bound :
